@@ -59,6 +59,18 @@ theorem reorder_independent (w0 : World) (h : List Op) (a b : Op)
   · rw [stateless_self_contained w0 (h ++ [a]) b hb, stateless_self_contained w0 h b hb]
   · rw [stateless_self_contained w0 (h ++ [b]) a ha, stateless_self_contained w0 h a ha]
 
+/-- Regularisers (H1, split Bregman) with ANY solver — the default instance or a user's Jacobi / MG object — are
+independent of the whole history AND of the parameters `dim`, `mass_coeff`, `diffusion_coeff` the solver object was
+constructed or left with (the call overwrites all three; only `maxiter`, `tol`, `depth`, `smoother_iterations` and the
+heterogeneity flag of the object matter): `w0'` may be any process whose solver objects differ from those of `w0` in
+those parameters and in caches. -/
+theorem regulariser_stateless (w0 w0' : World) (e : w0'.normP = w0.normP) (h : List Op)
+    (which : Bool) (s : SolverRef) (mass diff : Coef) (dim n : Nat) :
+    (regularise true false (run true false w0 h) which s mass diff dim n).2
+      = (regularise true false w0' which s mass diff dim n).2 := by
+  apply regularise_normP
+  rw [run_normP, e]
+
 /-- A multigrid solve leaves the object as it found it, up to caches (the coefficients in particular). -/
 theorem mg_call_restores (m : MG) : (m.call true false).1.norm = m.norm := (MG.call_norm m).1
 
